@@ -87,12 +87,12 @@ func ZZ_C17_errorAccounting() {
 	} else {
 		// "every error returned by a parallel pod creation or deletion is reflected in the error the
 		// sync reports and in the replica set's ReconcileError or PodsCleanupDone condition rather
-		// than being lost"
+		// than being lost": both — the error the reconcile returns and a persisted condition
 		if failedCreate+failedDelete > 0 {
-			nondet.Assert("C17.create-delete-error-recorded", recErr || err != nil)
+			nondet.Assert("C17.create-delete-error-recorded", recErr && err != nil)
 		}
 		if failedCleanup > 0 {
-			nondet.Assert("C17.cleanup-error-recorded", recErr || cleanupFalse || err != nil)
+			nondet.Assert("C17.cleanup-error-recorded", (recErr || cleanupFalse) && err != nil)
 		}
 		if failedCreate+failedDelete+failedCleanup == 0 {
 			nondet.Assert("C17.no-spurious-error", !recErr && !cleanupFalse && err == nil)
@@ -175,10 +175,10 @@ func ZZ_C17_batches() {
 		nondet.Assert("C17.batch.status-failure-returned", err != nil)
 	} else {
 		if failedCreate+failedDelete > 0 {
-			nondet.Assert("C17.batch.create-delete-error-recorded", recErr || err != nil)
+			nondet.Assert("C17.batch.create-delete-error-recorded", recErr && err != nil)
 		}
 		if failedCleanup > 0 {
-			nondet.Assert("C17.batch.cleanup-error-recorded", recErr || cleanupFalse || err != nil)
+			nondet.Assert("C17.batch.cleanup-error-recorded", (recErr || cleanupFalse) && err != nil)
 		}
 		if failedCreate+failedDelete+failedCleanup == 0 {
 			nondet.Assert("C17.batch.no-spurious-error", !recErr && !cleanupFalse && err == nil)
@@ -274,9 +274,9 @@ func ZZ_C17_largeBatch() {
 	nondet.Assert("C17.large.all-attempted", calls == n)
 	if failed > 0 {
 		if kind == "cleanup" {
-			nondet.Assert("C17.large.cleanup-error-recorded", recErr || cleanupFalse || err != nil)
+			nondet.Assert("C17.large.cleanup-error-recorded", (recErr || cleanupFalse) && err != nil)
 		} else {
-			nondet.Assert("C17.large.error-recorded", recErr || err != nil)
+			nondet.Assert("C17.large.error-recorded", recErr && err != nil)
 		}
 	} else {
 		nondet.Assert("C17.large.no-spurious-error", !recErr && !cleanupFalse && err == nil)
